@@ -187,7 +187,16 @@ def main(tier, seed, replay=None):
     t0 = time.time()
     if replay:
         r = validate_file(replay)
-        bad = [m for m in r["mismatches"] if m["kind"] in NEG_KINDS]
+        findings = {f["signature"].split(":")[0]: f for f in lib.active_findings(PID)}
+        bad = []
+        for m in r["mismatches"]:
+            if m["kind"] not in NEG_KINDS:
+                continue
+            hit = [v for v in set(re.findall(r'"([a-z0-9-]+)"', m["diff"])) if v in findings]
+            if m["kind"] == "BlockInvalid" and hit:
+                lib.report_known(PID, findings[hit[0]]["signature"] + " (replay)")
+            else:
+                bad.append(m)
         for m in bad:
             lib.report_violation(PID, replay, "line %d (%s): %s" % (m["line"], m["kind"], m["diff"]))
         if not bad:
@@ -205,7 +214,28 @@ def main(tier, seed, replay=None):
         missing.append("bytes")
     files = [f["path"] for f in stats["files"] if f["events"] > 1]
     results = lib.parallel_map(validate_file, files, workers=min(16, lib.NCPU))
-    violations = [(r["file"], m) for r in results for m in r["mismatches"] if m["kind"] in NEG_KINDS]
+    # a listed finding of C03 is identified by the VARIANT that exposes it (signature prefix = variant name) and
+    # only excuses "accepted although the specification rejects" for exactly that variant
+    findings = {f["signature"].split(":")[0]: f for f in lib.active_findings(PID)}
+    violations, known = [], []
+    for r in results:
+        for m in r["mismatches"]:
+            if m["kind"] not in NEG_KINDS:
+                continue
+            names = set(re.findall(r'"([a-z0-9-]+)"', m["diff"]))
+            hit = [v for v in names if v in findings]
+            if m["kind"] == "BlockInvalid" and hit:
+                known.append((r["file"], m, hit[0]))
+            else:
+                violations.append((r["file"], m))
+    seen = set()
+    for f, m, v in known:
+        if v not in seen:
+            seen.add(v)
+            rp = lib.save_replay(PID, "known-%s-%s-%d.ndjson" % (v, os.path.basename(f)[:-7], m["line"]),
+                                 beacon.ndjson_text(beacon.make_replay(f, m["line"])))
+            lib.report_known(PID, "%s (%d occurrence(s) this run, e.g. replay=%s)" % (
+                findings[v]["signature"], sum(1 for _, _, x in known if x == v), rp))
     if missing and not violations:
         raise lib.InfraError("vacuity guard: catalogue classes / conditions never exercised on a fork where they exist: %s" % ", ".join(missing))
     base = sum(1 for r in results for m in r["mismatches"] if m["kind"] not in NEG_KINDS)
@@ -239,7 +269,7 @@ def main(tier, seed, replay=None):
         "traces_validated_against_impl": neg - len(violations) - unjudged, "evaluations": neg,
         "distinct_nontrivial": {"distinct": len(digests), "nontrivial": c.get("neg_rejected", 0),
                                 "rule": "variant that zrnt rejected and the model judged"},
-        "controls_accepted_with_specified_post_state": controls, "unjudged": unjudged,
+        "controls_accepted_with_specified_post_state": controls, "unjudged": unjudged, "known_finding_hits": len(known),
         "rejected": c.get("neg_rejected", 0), "accepted": c.get("neg_accepted", 0), "panics": c.get("neg_panic", 0),
         "clamped_numbers": c.get("neg_clamped", 0),
         "per_class_fork": {k[len("neg_class_"):]: v for k, v in c.items() if k.startswith("neg_class_")},
